@@ -48,6 +48,7 @@ class Build:
         self.assumptions = ""
         self.theorems = []
         self.fingerprint_drift = []
+        self.axioms_reported = []
 
     def run(self):
         lock = open(os.path.join(VERIF, ".build.lock"), "w")
@@ -78,6 +79,9 @@ class Build:
         if not os.path.exists(os.path.join(COQ, "Makefile")):
             sh("coq_makefile -f _CoqProject -o Makefile", cwd=COQ)
         pfile = f"Properties/{self.prop}.v"
+        import glob as _glob
+        pfiles = sorted(os.path.relpath(x, COQ) for x in _glob.glob(os.path.join(COQ, "Properties", self.prop + "*.v"))
+                        if re.fullmatch(re.escape(self.prop) + r"[a-z]?\.v", os.path.basename(x)))
         # model + extraction first (needed by the correspondence), then the property's cone
         rc, out = sh("timeout 1500 make -j8 Extract/Extract.vo 2>&1 | grep -v '^Warning\\|docroot\\|orphan\\|install-doc'", cwd=COQ, timeout=1600)
         ok_model = os.path.exists(os.path.join(COQ, "Extract", "Extract.vo")) and "Error" not in out
@@ -93,21 +97,32 @@ class Build:
                     self.driver_ok = False
                     self.notes.append("driver build failed: " + out2[-400:])
         if os.path.exists(os.path.join(COQ, pfile)):
-            rc, out = sh(f"timeout 1500 make -j8 Properties/{self.prop}.vo 2>&1 | grep -v '^Warning\\|docroot\\|orphan\\|install-doc'", cwd=COQ, timeout=1600)
-            if rc != 0 or "Error" in out or not os.path.exists(os.path.join(COQ, f"Properties/{self.prop}.vo")):
+            targets = " ".join(x[:-2] + ".vo" for x in pfiles)
+            rc, out = sh(f"timeout 1500 make -j8 {targets} 2>&1 | grep -v '^Warning\\|docroot\\|orphan\\|install-doc'", cwd=COQ, timeout=1600)
+            if rc != 0 or "Error" in out or not all(os.path.exists(os.path.join(COQ, x[:-2] + ".vo")) for x in pfiles):
                 self.proof_ok = False
                 m = re.search(r'File "\./([^"]+)", line (\d+)', out)
                 self.proof_msg = (m.group(1) + ":" + m.group(2) + " " if m else "") + out.strip()[-500:]
                 self.notes.append("proof obligation broken: " + self.proof_msg[:300])
-            src = open(os.path.join(COQ, pfile)).read()
-            self.theorems = re.findall(r"^(?:Theorem|Lemma|Corollary|Example)\s+(\w+)", src, re.M)
+            self.theorems = []
+            for pf in pfiles:
+                src = open(os.path.join(COQ, pf)).read()
+                self.theorems += re.findall(r"^(?:Theorem|Lemma|Corollary|Example)\s+(\w+)", src, re.M)
             if self.proof_ok:
-                # re-run coqc on the property file alone to capture Print Assumptions
-                rc, out = sh(f"timeout 600 coqc $(grep '^-Q' _CoqProject | tr '\\n' ' ') {pfile}", cwd=COQ, timeout=700)
-                self.assumptions = out.strip()
-                if rc != 0:
-                    self.proof_ok = False
-                    self.proof_msg = out[-400:]
+                # re-run coqc on the property files alone to capture Print Assumptions
+                for pf in pfiles:
+                    rc, out = sh(f"timeout 600 coqc $(grep '^-Q' _CoqProject | tr '\\n' ' ') {pf}", cwd=COQ, timeout=700)
+                    self.assumptions += out.strip() + "\n"
+                    if rc != 0:
+                        self.proof_ok = False
+                        self.proof_msg = out[-400:]
+                n_closed = self.assumptions.count("Closed under the global context")
+                self.axioms_reported = [l for l in self.assumptions.split("\n") if l.strip() and "Closed under the global context" not in l]
+                if "Axioms:" in self.assumptions or n_closed < len(self.theorems):
+                    # every property theorem must be closed under the global context (no axioms at all)
+                    if "Axioms:" in self.assumptions:
+                        self.proof_ok = False
+                        self.proof_msg = "Print Assumptions reports axioms: " + " | ".join(self.axioms_reported)[:400]
             # hygiene: forbidden vernacular anywhere in the development
             rc, out = sh("grep -rnE '\\b(Admitted|admit|Axiom|Parameter|Conjecture|Unset Guard|bypass_check|Admit Obligations)\\b' --include=*.v Model Spec Proofs Properties Extract | grep -v '^[^:]*:[0-9]*:\\s*(\\*' || true", cwd=COQ)
             if out.strip():
@@ -321,7 +336,7 @@ def main():
             "checker_cmd": "make -C coq Properties/%s.vo (coq_makefile, full .vo build) ; coqc Properties/%s.v for Print Assumptions" % (a.prop, a.prop),
             "trusted_base": TRUSTED_BASE,
             "theorems": b.theorems,
-            "print_assumptions": b.assumptions[-3000:],
+            "print_assumptions": ("%d x Closed under the global context" % b.assumptions.count("Closed under the global context")) + ("; OTHER OUTPUT: " + " | ".join(b.axioms_reported)[:2000] if b.axioms_reported else ""),
             "generated_tables_changed_this_run": b.generated_changed,
             "fingerprint_drift": b.fingerprint_drift,
             "programs": len(cases),
